@@ -7,6 +7,9 @@ mod ints;
 mod cond;
 mod locks;
 mod sigs;
+mod genpaths;
+mod bls;
+mod treehash;
 
 fn main() {
     let args: Vec<String> = std::env::args().collect();
@@ -29,6 +32,12 @@ fn main() {
         "C02" => cond::run_c02(&mut o, seed, thorough, replay),
         "C03" => locks::run(&mut o, seed, thorough, replay),
         "C05" => sigs::run(&mut o, seed, thorough, replay),
+        "C06" => cond::run_c06(&mut o, seed, thorough, replay),
+        "C17" => treehash::run(&mut o, seed, thorough, replay),
+        "C15" => bls::run(&mut o, seed, thorough, replay),
+        "C07" => genpaths::run_c07(&mut o, seed, thorough, replay),
+        "C08" => genpaths::run_c08(&mut o, seed, thorough, replay),
+        "C09" => genpaths::run_c09(&mut o, seed, thorough, replay),
         "C04" => cond::run_c04(&mut o, seed, thorough, replay),
         _ => { eprintln!("unknown property {prop}"); std::process::exit(2); }
     }
